@@ -12,7 +12,7 @@ from pyvc.engine import FnSpec, LoopSpec, Obligation, Raise
 from specs.inotify_read import IRWorld, CloseResources, Close, ReadEvents, Init, AddWatch, string_lemmas, FILE
 
 PROP = "C12"
-GROUNDABLE = False
+GROUNDABLE = True
 BATTERY = "c12_battery.py"
 BUF = "watchdog/observers/inotify_buffer.py"
 EMIT = "watchdog/observers/inotify.py"
